@@ -221,6 +221,75 @@ def rule_reader_shape(ctx, rep):
                               start_keys=s_keys, end_keys=e_keys)
 
 
+def _verbatim_doc_value(ctx, fn, e: ast.expr, params: set[str], depth: int = 16):
+    """Is `e` a value read from the result document (subscript / .get chain on a parameter), wrapped at most in Path()/str()?
+    Returns (ok, offending node)."""
+    from ..derive import expand_predicate
+
+    r = ctx.resolver(fn)
+    while depth > 0:
+        depth -= 1
+        if isinstance(e, ast.Name) and e.id not in params:
+            x = r.expand(e)
+            if x is e:
+                return False, e
+            e = x
+            continue
+        if isinstance(e, ast.Call):
+            cn = call_name(e) or ""
+            if cn.split(".")[-1] in ("Path", "PurePath", "PurePosixPath", "str") and len(e.args) == 1 and not e.keywords:
+                e = e.args[0]
+                continue
+            if isinstance(e.func, ast.Attribute) and e.func.attr == "get" and e.args:
+                e = e.func.value
+                continue
+            x = expand_predicate(ctx, fn, e, 2)
+            if x is not e:
+                e = x
+                continue
+            return False, e
+        if isinstance(e, ast.Subscript) and not isinstance(e.slice, ast.Slice):
+            e = e.value
+            continue
+        if isinstance(e, ast.Name) and e.id in params:
+            return True, None
+        return False, e
+    return False, e
+
+
+def rule_location_file_verbatim(ctx, rep, rule_id="R-LOCATION-FILE-VERBATIM"):
+    """Shared by C05 / C06 / C12 / C18."""
+    rep.rule(
+        rule_id,
+        "the SARIF and DefectDojo readers take a finding's file from the document as it is written there -- `Path(<document value>)`, no "
+        "decoding, unquoting, prefix stripping or normalisation in between: the result set is keyed by that path and looked up with the path "
+        "the directory walk yields, and the run's own semgrep scans write file names verbatim, so any rewriting (percent-decoding `%20`, "
+        "case folding, resolve()) makes the findings of files whose names it alters unreachable",
+        min_instances=3,
+    )
+    n = 0
+    for cq in sorted(ctx.prog.all_subclasses("codemodder.result.Location")):
+        c = ctx.prog.classes[cq]
+        if cq.startswith("core_codemods.sonar."):
+            continue  # `<project key>:<path>`: judged by R-SONAR-COMPONENT
+        for m in c.methods.values():
+            if m.absorbed:
+                continue
+            params = set(m.positional_params()[1:])
+            for call in walk_no_nested(m.node):
+                if isinstance(call, ast.Call) and isinstance(call.func, ast.Name) and call.func.id == "cls":
+                    fv = next((k.value for k in call.keywords if k.arg == "file"), None)
+                    if fv is None:
+                        continue
+                    n += 1
+                    ok, bad = _verbatim_doc_value(ctx, m, fv, params)
+                    rep.check(rule_id, m.qname, m.loc(call), ok, "file-from-document",
+                              f"the file of the location goes through `{unparse(bad)[:60]}` instead of being the document's value: findings of files "
+                              "whose names that rewriting changes are keyed under a path no analysed file has" if not ok else "")
+    if n < 3:
+        raise AnalysisError(f"only {n} Location constructions with file= found in the SARIF / DefectDojo readers")
+
+
 def rule_add_all_locations(ctx, rep):
     rep.rule(
         "R-ADD-ALL-LOCATIONS",
@@ -531,6 +600,7 @@ def check(ctx, rep):
     rule_total_lookup(ctx, rep)
     rule_or_precedence(ctx, rep)
     rule_reader_shape(ctx, rep)
+    rule_location_file_verbatim(ctx, rep)
     rule_add_all_locations(ctx, rep)
     rule_merge_no_alias(ctx, rep)
     rule_sonar_component(ctx, rep)
